@@ -46,3 +46,33 @@ prop("C01", "exploration",
      ["wallet output sets whose total value does not fit in u64 are not generated (a wallet's outputs exist on one chain, so their sum is bounded by the supply)",
       "exhaustive=true refers to the bounded small scope of workload A only"],
      required_hist=["A:built", "B:send-built", "B:invoice-paid", "B:late-lock-built"])
+
+prop("C08", "exploration",
+     "structural generator over every optional V4 slate field (7 states, num_parts {0,1,2,3,255}, boundary integers, fee shift, "
+     "kernel features {0,2,3} with arguments, offset, 0-5 participants with/without partial signatures, coms none/empty/1-40 mixing "
+     "inputs, plain/coinbase outputs, real and arbitrary-content proofs, payment proof none/without/with signature); each slate goes "
+     "through V4 JSON (Slate serializer, VersionedSlate), V4 binary, and slatepack armored/binary/JSON, plain and encrypted to 1-3 "
+     "recipients (decrypted by each); decoded slates are compared field by field on native values with the original, with each other, "
+     "and back at the SlateV4 level; plus addresses and stored records (OutputData, TxLogEntry, Context, Slatepack) through their own "
+     "codecs. distinct = tuple of which optional parts were present/their size class; non-trivial = all",
+     [{"name": "c08", "cmd": "c08", "shards": {"quick": 12, "thorough": 16}, "crash_is_violation": True}],
+     {"quick": 10000, "thorough": 300000},
+     ["range proofs are generated at the bulletproof size only (675 bytes, real or arbitrary content): other lengths are not proofs a wallet can hold and the binary reader pads to that size",
+      "slatepack payloads are bounded to 100 kB (grin_core BinReader refuses larger single reads); ill-typed combinations (feature arguments on a plain kernel, invalid FeeFields) are left to C09",
+      "the transaction inside a slate is compared as (inputs, outputs with features and proofs, offset); the kernel is recomputed by design"],
+     required_hist=["field:feat=2", "field:feat=3", "field:proof=with-rsig", "field:coms=some", "field:recipients=3", "field:record:txlog", "field:record:context"])
+
+prop("C10", "exploration",
+     "slates from the C08 generator packed for 0-4 recipients with/without sender; per message: every recipient key must recover slate and "
+     "sender from the armored, binary and JSON forms; 11 non-recipient keys and no key must fail; slate binary/JSON/id and sender "
+     "bech32/raw/hex searched in the text forms, the base58-decoded armor and the base64-decoded JSON payload; edits (substitution, "
+     "deletion, insertion, adjacent transposition at every position of the first message per shard, sampled positions after; single-bit "
+     "flips of the binary form and JSON payload) must be rejected or decode to the identical slate+sender (unencrypted armor: a different "
+     "slate only with a genuinely matching independent double-SHA256 check); plus owner::create_slatepack_message / "
+     "slate_from_slatepack_message / decode_slatepack_message on real wallets with right/wrong derivation indices and wallets. "
+     "distinct = (recipient count, sender present, state, commitment count class, proof present); non-trivial = all",
+     [{"name": "c10", "cmd": "c10", "shards": {"quick": 12, "thorough": 16}, "crash_is_violation": True}],
+     {"quick": 100000, "thorough": 1000000},
+     ["'no other key' is tested for the other pool keys, random keys, other derivation indices and the other wallet, not for all keys",
+      "unencrypted binary/JSON slatepacks carry no integrity protection and are outside the statement (only armored text is)"],
+     required_hist=["recipient-decrypt-ok", "non-recipient-refused", "cleartext-searches", "edit-rejected:armored:transpose", "edit-rejected:binary:bitflip", "api:other-index-refused"])
